@@ -18,8 +18,8 @@ import (
 type Group struct {
 	Scen      Scen
 	Text      string
-	MayRefuse bool // the configuration may be refused at construction (left open by the specification)
-	Allowed map[string]Outcome // Outcome.Key -> outcome
+	MayRefuse bool               // the configuration may be refused at construction (left open by the specification)
+	Allowed   map[string]Outcome // Outcome.Key -> outcome
 }
 
 // FamilyOpts describes one enumerated family.
